@@ -7,7 +7,7 @@ from harness.problems import CONVEX, NONCONVEX
 PREFIX = ("C03_",)
 RULE = ("design: TLC exhausts MCDriver (all configurations x line-search outcome sequences x budgets); "
         "code->spec: random runs (convex, non-convex, badly scaled; maxls 1..20, maxfun from 1, all maxcor) "
-        "validated against DriverTrace; a trace is non-trivial/distinct by its event-kind sequence")
+        "validated against DriverTrace; spec->code: scripted objectives realising every sequence of trial outcomes (value level x slope) up to length 2/3 x line-search caps x evaluation budgets; a trace is non-trivial/distinct by its event-kind sequence")
 
 
 def specs(ctx):
@@ -18,6 +18,8 @@ def specs(ctx):
         s["kwargs"]["maxls"] = int(rng.integers(1, 21))
         s["kwargs"]["maxfun"] = int(rng.choice([1, 2, 3, 4, 5, 7, 10, 15, 30, 100]))
         out.append(s)
+    # scripted objectives: every sequence of trial outcomes up to a length x line-search caps (spec -> code)
+    out += corpus.scripted_specs(rng, exhaustive_len=ctx.pick(2, 3), n_random=ctx.pick(300, 3000))
     return out
 
 
